@@ -131,7 +131,10 @@ func framingString(r *scen.Rand, av Avoid) string {
 func plainLine(r *scen.Rand) string { return words[r.Intn(len(words))] }
 
 func structuredValue(r *scen.Rand) scen.Value {
-	switch r.Intn(8) {
+	switch r.Intn(9) {
+	case 7:
+		// a byte slice given to MatchSnapshot is printed as a Go value, not as text
+		return scen.Value{K: "b", S: []byte(words[r.Intn(len(words))])}
 	case 0:
 		return scen.Value{K: "i", I: r.Intn(1000) - 500}
 	case 1:
